@@ -100,3 +100,36 @@ Definition ex_gasphase : rec1 :=
     VLines [[b "0"]]; VLines [[b "0"]]; VLines [[i "-999"]]; VLines [[n "25"]];
     VLines [[n "0.01"]]; VLines [[n "24.4"]]; VLines [[b "0"]];
     VBlock true [[w "C"; n "0.01"]; [w "O"; n "0.02"]] ].
+
+Example ex_gasphase_wf : wf1 L0 S_cxxGasPhase ex_gasphase.
+Proof.
+  unfold wf1, wf, ex_gasphase, ex_gascomp. cbv -[find_exact typed_args typed_keys].
+  repeat split; try discriminate; try lia; auto;
+    repeat (first [ apply Forall_cons | apply Forall_nil | apply Forall2_cons | apply Forall2_nil | split
+                  | reflexivity | discriminate ]).
+Qed.
+
+Example ex_gasphase_roundtrip :
+  read1 L0 S_cxxGasPhase (dump1 L0 S_cxxGasPhase ex_gasphase) = Ok (kept1 L0 S_cxxGasPhase ex_gasphase, []).
+Proof. vm_compute. reflexivity. Qed.
+
+(* the dump really contains the nested block, and the dropped -p is the only thing not restored *)
+Example ex_gasphase_lines : length (dump1 L0 S_cxxGasPhase ex_gasphase) = 20.
+Proof. vm_compute. reflexivity. Qed.
+
+(* ---------------------------------------------------------------- Serialize / Deserialize *)
+Lemma serial_all_ok : forallb serial_ok all_serial = true.
+Proof. vm_compute. reflexivity. Qed.
+
+Theorem serialize_roundtrip_gen :
+  forall (X : Type) (enc : string -> X -> list BinNums.Z * list QArith_base.Q)
+         (dec : string -> list BinNums.Z -> list QArith_base.Q -> option (X * list BinNums.Z * list QArith_base.Q)),
+    (forall t x iz dq, dec t (fst (enc t x) ++ iz) (snd (enc t x) ++ dq) = Some (x, iz, dq)) ->
+    forall cls ser des, In (cls, ser, des) all_serial ->
+    forall r, Forall2 (typed X) (map to_op ser) r ->
+      deserialize X dec (map to_op des) (fst (serialize X enc (map to_op ser) r)) (snd (serialize X enc (map to_op ser) r)) = Some r.
+Proof.
+  intros X enc dec Hde cls ser des Hin r Ht.
+  apply (serialize_roundtrip X enc dec Hde); [|assumption].
+  pose proof serial_all_ok as H. rewrite forallb_forall in H. exact (H _ Hin).
+Qed.
